@@ -45,6 +45,14 @@ func ZZ_C12_stalledConsumer() {
 		cbs.AddCallback("stalled", func(*common.Beacon, bool) { <-gate })
 		zz.Quiesce()
 	}
+	if q >= CallbackWorkerQueue+1 && zz.Bool("stalled_client_disconnects_meanwhile") {
+		// the stalled client's stream is torn down (its callback removed) while the writer is busy with the next
+		// beacon: whatever else happens, the node must not die of it
+		go func() {
+			zz.Quiesce()
+			cbs.RemoveCallback("stalled")
+		}()
+	}
 	err := cbs.Put(ctx, &common.Beacon{Round: uint64(q + 1), Signature: []byte{1}}) // must return
 	zz.Quiesce()
 	zz.Assert("put_succeeds", err == nil)
